@@ -276,6 +276,15 @@ def _field_may_have_null_byte_order(field, type_definition, ir):
         ir_util.fixed_size_of_type_in_bits(ir_util.get_base_type(field.type), ir)
         == unit
     ):
+        # ... unless the field is a (necessarily anonymous) `bits` that is known
+        # to span several units while its members only use the first one: the
+        # field is still read as a multi-unit value.
+        if (
+            not field.type.has_field("array_type")
+            and ir_util.is_constant(field.location.size)
+            and ir_util.constant_value(field.location.size) > 1
+        ):
+            return False
         return True
     # In all other cases, byte order does matter.
     return False
